@@ -75,7 +75,9 @@ def runF (st : St) (f : FSnap → FSnap) (specEvent : Option Ev) (impl : String)
       let sp' := match specEvent with
         | some e => specEv st.sp e
         | none => st.sp
-      let st1 := noteOps { st with m := some m', sp := sp' } implOps
+      -- an event after the fault changed what the node knows: from then on recording must have resumed
+      let changed := st.implFailed.isSome && showSpec sp'.spec != showSpec st.sp.spec
+      let st1 := noteOps { st with m := some m', sp := sp', workAfterFault := st.workAfterFault || changed } implOps
       let implPanic := impl.startsWith "PANIC"
       let st2 := { st1 with panicked := st1.panicked || implPanic }
       let mon := if implPanic && !st.panicked then panicVerdict st2 (m'.failed.map C11.showOp)
@@ -158,6 +160,22 @@ def step (st : St) (op : List String) (impl : String) : LineOut St :=
     | _, _ => bad
   | _ => bad
 
-def checker : Checker := { σ := St, init := {}, step := step }
+/-- After the first disagreement between model and implementation the model is no longer
+compared (its state is unreliable) but the MONITOR keeps judging the implementation's
+outputs, so that a broken implementation still yields a concrete failing input; the
+disagreement itself is reported through the monitor channel (key `model-mismatch`). -/
+def stepD (st : St × Bool) (op : List String) (impl : String) : LineOut (St × Bool) :=
+  let r := step st.1 op impl
+  if st.2 then { state := (r.state, true), model := none, monitor := r.monitor }
+  else match r.model with
+    | some m =>
+      if m != impl then
+        { state := (r.state, true), model := none,
+          monitor := r.monitor.orElse fun _ => some ("model-mismatch",
+            s!"model and implementation disagree: model [{(m.take 300).toString}] implementation [{(impl.take 300).toString}]") }
+      else { state := (r.state, false), model := r.model, monitor := r.monitor }
+    | none => { state := (r.state, false), model := none, monitor := r.monitor }
+
+def checker : Checker := { σ := St × Bool, init := ({}, false), step := stepD }
 
 end SerfModel.Check.C12
